@@ -36,6 +36,17 @@ def flag_stores(b, value=None):
                 out.append(i)
         elif value is None:
             out.append(i)
+    # ... or through a reference to just that field (a closure that captured it)
+    for (i, si, st) in b.assigns(lambda st: st['lhs']['p'] == ['deref']):
+        v = b.local_val(st['lhs']['l'])
+        tail = [q for q in v.projs if q != 'deref']
+        if len(tail) >= 2 and tail[-1] == 'ref' and tail[-2] == '.is_valid_history':
+            rv = st['rv']
+            if rv['k'] == 'use' and rv['op']['k'] == 'const' and 'val' in rv['op']:
+                if value is None or rv['op']['val'] == value:
+                    out.append(i)
+            elif value is None:
+                out.append(i)
     return out
 
 
@@ -52,6 +63,7 @@ def r1_sticky(ctx, F, ty, rule):
     for name in ('on_invoke', 'on_return'):
         b = tester_fn(F, ty, name)
         ctx.touched(b)
+        b = F.norm(b)       # (`.ok_or_else(|| { flag = false; format!(..) })?` marks the history in a closure)
         errs = [i for (i, si, st) in b.assigns(lambda st: st['lhs']['l'] == 0 and not st['lhs']['p'] and
                                                 st['rv']['k'] == 'agg' and st['rv'].get('variant') == 'Err')]
         oks = [i for (i, si, st) in b.assigns(lambda st: st['lhs']['l'] == 0 and not st['lhs']['p'] and
